@@ -261,7 +261,7 @@ Corollary reader_units_longhand fo braces a : units_ok fo a = true ->
   read_cgsmiles fo (print braces a) = read_cgsmiles fo (print braces (expand_branches a)).
 Proof.
   intros Hu Hwf Hb. rewrite (reader_sim_units_gen fo braces a Hu), (reader_sim_grammar fo braces _ Hwf Hb).
-  assert (Hrg : rg_chain true fo (expand_branches a) = true) by (apply rg_of_wf_gen; [assumption|assumption|discriminate]).
+  assert (Hrg : rg_chain true false fo (expand_branches a) = true) by (apply rg_of_wf_gen; [assumption|intros _; assumption|discriminate]).
   assert (Hne : expand_branches a <> []) by (unfold wf in Hwf; destruct (expand_branches a); [discriminate|discriminate]).
   destruct (linearize_x_spec fo _ Hrg Hne) as (_ & _ & P3 & _).
   unfold denote. now rewrite P3.
@@ -333,7 +333,7 @@ Theorem reader_units_expand fo braces a : units_ok fo a = true ->
   read_cgsmiles fo (print braces a) = read_cgsmiles fo (print braces (expand a)).
 Proof.
   intros Hu Hp Hwf Hb. rewrite (reader_sim_units_gen fo braces a Hu), (reader_sim_grammar fo braces _ Hwf Hb).
-  assert (Hrg : rg_chain true fo (expand a) = true) by (apply rg_of_wf_gen; [assumption|assumption|discriminate]).
+  assert (Hrg : rg_chain true false fo (expand a) = true) by (apply rg_of_wf_gen; [assumption|intros _; assumption|discriminate]).
   assert (Hne : expand a <> []) by (unfold wf in Hwf; destruct (expand a); [discriminate|discriminate]).
   destruct (linearize_x_spec fo _ Hrg Hne) as (_ & _ & P3 & _).
   unfold denote. rewrite P3. unfold expand. now rewrite (expand_nodes_toks fo _ Hp).
